@@ -251,6 +251,33 @@ def _exact_sqrt(fr: fractions.Fraction):
     return None
 
 
+def _div(a, b):
+    """a / b; t / t and t / (-t) become +-1 when the path implies t != 0 (keeps normalised
+    directions such as tangent / |tangent| out of nonlinear arithmetic)."""
+    if (z3.is_rational_value(a) or z3.is_int_value(a)) and a.as_fraction() == 0 \
+            and not (z3.is_rational_value(b) or z3.is_int_value(b)):
+        try:
+            if cur().sign_strict(b) != 0:
+                return z3.RealVal(0)
+        except Exception:  # noqa: BLE001
+            pass
+    if not (z3.is_rational_value(b) or z3.is_int_value(b)) and a.sort() == b.sort():
+        same = z3.eq(a, b)
+        opp = False
+        if not same and a.sort() == R and _small(a, 3000) and _small(b, 3000):
+            sa_, sb_ = z3.simplify(a), z3.simplify(b)
+            same = z3.eq(sa_, sb_)
+            if not same:
+                opp = z3.eq(z3.simplify(sa_ + sb_), z3.RealVal(0))
+        if same or opp:
+            try:
+                if cur().sign_strict(b) != 0:
+                    return z3.RealVal(-1 if opp else 1)
+            except Exception:  # noqa: BLE001  (no active path)
+                pass
+    return a / b
+
+
 class SReal:
     __slots__ = ("e",)
 
@@ -284,10 +311,10 @@ class SReal:
     __rmul__ = __mul__
 
     def __truediv__(self, o):
-        return self._bin(o, lambda a, b: a / b)
+        return self._bin(o, _div)
 
     def __rtruediv__(self, o):
-        return self._bin(o, lambda a, b: b / a)
+        return self._bin(o, lambda a, b: _div(b, a))
 
     def __neg__(self):
         return SReal(_simp(-lift(self)))
